@@ -62,6 +62,12 @@ CLAIMS = {
         text='Bounded symbolic model checking of dddmp.load: real header parse of concrete header variants (varinfo 0/1/3, gaps, orderedvarnames), then the real _add_node/load/find_or_add on symbolic node rows (any numbering with children before parents, symbolic children, complement marks, 1-2 roots); z3 proves every element of roots denotes the file\'s root entry by name.',
         note='Cut at the row level: line.split/int() of node lines is replaced by a loop feeding _add_node (text cannot be symbolic); module run through the literal-lifting loader; every model is replayed with a real file on the unlifted module.',
         ref='DESIGN.md section 8 C16'),
+    'C19': dict(
+        text='Source-level symbolic check of the Cython wrappers (they cannot be built here): the apply body of cudd/cudd_zdd/sylvan/buddy is normalised to Python, executed for each of the 27 operator spellings on symbolic truth tables with the library calls bound to their documented meaning, and z3 decides equality with the real dd.bdd.BDD.apply run on a signed-reference algebra; '
+             'wrap/init/__cinit__/__dealloc__/incref/decref run against a symbolic ledger of library references (creation +1, disposal -1, 0 <= _ref <= library count).',
+        note='Trusted base: the table of library-call meanings (CUDD/Sylvan/BuDDy manuals), the line-level .pyx normaliser (result must ast.parse); Cython code generation and the C libraries are outside the claim. One known finding (sylvan quantifier roles).',
+        ref='DESIGN.md section 8 C19',
+        technique='symbolic execution of the normalised .pyx method bodies with library stubs on z3 bit-vectors; z3 decides equivalence with the real dd.bdd.BDD.apply for all operand values; symbolic reference ledger'),
     'C10': dict(
         text='Bounded symbolic model checking of support/is_essential/count/pick_iter/pick (no stubs, read-only) against bit-vector dependence, popcount and cube-cover oracles for every valid manager and operand within the bounds.',
         note='_assert_int (a Python-type assertion) replaced by identity; levels are concretised by the set/dict lookups of the real code, children and signs stay symbolic.',
